@@ -93,6 +93,11 @@ func (g *Gen) anyStruct(depth int) *TyDef {
 }
 
 func runC08(r *Runner, g *Gen, tier string) string {
+	// defined types that refer to themselves without a struct in the cycle (no finite
+	// TyDef: oracle only). SSelfHolder reaches one through a struct field.
+	for _, name := range []string{"PSelf", "SSelf", "MSelf", "PSelfA", "PSelfB", "SSelfHolder"} {
+		r.Do(L(A("buildself"), A(hxs(name))), true, "build.selfref")
+	}
 	// multi-step sequences on one instance: a recursive definition whose construction
 	// fails must leave nothing behind: every later request that involves it fails too
 	for ci, cfg := range cfgs {
